@@ -10,12 +10,12 @@ hooks = [l.split()[0] for l in hook_commits if ' verif hook:' in l]
 TECH = "contracts on the real functions + weakest-precondition style VC generation over go/ssa (govc) + SMT (z3 5.1, z3 4.8, cvc5)"
 
 claims = {
- "C01": ("mechanism obligations of the commit protocol proved per function: truncate lower bound (checkTruncate), header validation = magic+version+checksum over all 12 fields (Validate/Finalize), recovery picks the valid header with the newer txid in wrap-around order (readValidMeta)",
-         "Not decided: the crash-point x lost-write quantifier itself (no composition lemma yet), barrier order of tryCommitChangesToFile, shadow-paging targets of doFlush. FNV collision on torn headers is assumed away; file contents are an uninterpreted function of the offset (slotAt)."),
+ "C01": ("mechanism obligations of the commit protocol proved per function: ghost I/O protocol of the writer front end (data/meta pages -> sync -> exactly one header write to the inactive slot -> sync; no header write on error exits; checksum finalised over the final field values; tryCommitChangesToFile/syncNewMeta/prepareMetaBuffer), publication only to the written slot, sticky writer error (no I/O while in error state, cleared only by a reset sync), truncate lower bound, header validation, recovery picks the valid header with the newer txid in wrap-around order, deferred free of committed pages",
+         "Not decided: the crash-point x lost-write quantifier itself (no mechanised composition lemma), shadow-paging targets of doFlush, serialisation callbacks (fileCommitSerialize abstract: assumed to schedule data-area pages only). FNV collision on torn headers is assumed away; file contents are an uninterpreted function of the offset (slotAt); Schedule/Sync are monitor code whose contract defines the ghost protocol."),
  "C05": ("position codec proved inverse for every page size 2^10..2^31 and every valid position, offset 0 <=> nil position, offsets of valid positions >= 2 pages; Offset/SplitOffset of File and of the standalone delegate proved against the Delegate interface contract; id order helpers",
          "Framing only. End-to-end FIFO over the linked page chain, header-fit and spill stepping agreement are not decided yet."),
- "C08": ("error-path contracts of the mmap family: every failing vfs call in mmap/munmap/mmapUpdate/truncate/readMeta yields a non-nil error, no panic, and the old mapping or a fresh valid one is installed (mappedOK); computeMmapSize always covers both header pages",
-         "Fault sequences/bursts over histories are the (unmechanised) induction over these contracts; writer back end and commit error path not yet under contract. vfs.File behaviour is an interface contract (any error at any time); a failing MUnmap or re-mmap after unmap cannot be recovered and is exempted in the contract."),
+ "C08": ("error-path contracts: every failing vfs call in mmap/munmap/mmapUpdate/truncate/readMeta yields a non-nil error, no panic, and the old mapping or a fresh valid one is installed (F4, F10 fixed); writer back end: after a failing WriteAt/Sync no further I/O is issued until a reset sync was answered, and that sync clears the error (writeAt, execSync, Run); commit error path releases the commit locks and publishes nothing (F6 recorded)",
+         "Fault sequences/bursts over histories are the (unmechanised) induction over these contracts. vfs.File behaviour is an interface contract (any error at any time); a failing MUnmap or re-mmap after unmap cannot be recovered and is exempted in the contract."),
  "C09": ("lock balance via ghost tokens on the lock: beginTx acquires exactly one of shared/reserved, Tx.close / Rollback / Close release exactly it on every exit and never twice, withInitTx leaves all four lock levels and the pending flag as found for every behaviour of its callback",
          "Deadlock freedom and data-race freedom over schedules are outside this family. lock.go bodies are abstract here (token semantics defined by contract; sync.Mutex/Cond trusted)."),
  "C10": ("free-list entry codec: encodeRegion/decodeRegion/regionEncodingSize meet word-level specs and the lemma decode(encode(r)) == r holds for every id < 2^55 and count >= 1 incl. the 255 overflow form",
@@ -36,12 +36,18 @@ na = {
  "C12": "bound on space over unbounded traffic and drainability of a full file are whole-history/progress properties of a linked on-disk structure; no per-call contract within reach implies them",
  "C13": "quantifies over interleavings of two goroutines incl. data-race and deadlock freedom; the generator verifies sequential code of one goroutine",
 }
+claims.update({
+ "C02": ("guarded-by obligations: every store to File.metaActive / File.mapped / File.meta / waLog.mapping / waLog.metaPages (directly or through a callee's modifies clause) in the functions under contract happens with the exclusive, pending and reserved ghost tokens held, or before the File is published by Open; a failing commit publishes nothing (except the recorded F6 case); newTx takes private copies of root and data end marker; getPage resolves the overwrite page through the committed mapping",
+         "The schedule quantifier is discharged by rely on the lock contracts (lock.go bodies abstract, sync primitives trusted); memory-model level races are not analysed. Stores in functions that are not under contract are not seen."),
+ "C03": ("page write buffer state machine of Page (SetBytes/Load/MarkDirty/Bytes/Free/Flush preconditions and buffer invariant), getPage resolution through the overwrite mapping, WAL release chain (freeWALID -> deferred free of the overwrite page + mapping entry released), writer batch keeps per-page schedule order (stable sort; F5 fixed), checkpoint copies home and releases every clean redirected page (bounded: mappings with at most 2 entries)",
+         "Byte-level equality of buffer contents after partial writes, createMappingUpdate/fileCommitPrepare and flushPages are not under contract yet; equality with a sequential model over whole histories is their (unmechanised) induction."),
+ "C04": ("set-view contracts (ghost PageSet of each free list): Free of a committed page only records it (nothing becomes allocatable before commit), only pages allocated by the same transaction are recycled at once, nothing else becomes free; rollback returns exactly the pages taken from the free list below the restored end marker and leaves no free page at or beyond it (F9 fixed)",
+         "Allocation paths (AllocRegionsWith, AllocContinuousRegion, meta-area growth), commit-time merge and the region-slice surgery functions are abstract: the link between the ghost set and the region slice is assumed there. The end-marker shrink inside Free edits the slice directly and is not tracked by the ghost view."),
+ "C07": ("allocArea.rollback restores the end marker and the free set exactly (unbounded, with the map-iteration visited-set model), dataAllocator.Free defers frees of committed pages, every error exit of tryCommitChanges leaves the published state untouched and releases the commit locks; known finding F6 (late truncate/mmap failure after publication) is recorded",
+         "allocator.Rollback's move-back of meta-area growth, rollbackChanges' truncate and the reopen half of the statement are not under contract yet."),
+})
 pending = {
- "C02": "not claimed yet: guarded-by obligations under construction",
- "C03": "not claimed yet: page write-buffer and writer-order contracts under construction",
- "C04": "not claimed yet: allocator representation invariant under construction",
  "C06": "not claimed yet: flush/ACK transaction bracket contracts under construction",
- "C07": "not claimed yet: rollback contracts under construction",
  "C18": "not claimed yet: Open/Close release contracts under construction",
 }
 
